@@ -31,7 +31,9 @@ class Check(PropertyCheck):
 
     def make_impl(self, scenario):
         from impl_ext import ImplWorld
-        return ImplWorld(scenario.meta.get("filter_style", "callable"))
+        impl = ImplWorld(scenario.meta.get("filter_style", "callable"))
+        impl.subclass_mode = bool(scenario.meta.get("subclass"))
+        return impl
 
     def generate(self, rng, n, tier):
         for _ in range(n):
@@ -65,7 +67,7 @@ class Check(PropertyCheck):
                 lines.append(f"obs recorder {rng.randint(0, 2)}")
             elif r < 0.15:
                 lines.append(f"cogc recorder {rng.randint(0, 2)}")
-            elif r < 0.17:
+            elif r < 0.19:
                 lines.append("cog " + rng.choice(KINDS[:5]))
             elif r < 0.24:
                 lines.append(f"unsub {rng.randint(0, 7)}")
@@ -87,6 +89,8 @@ class Check(PropertyCheck):
             lines.append("trace")
         meta = {"family": family, "filter": "none" if f is None else "+".join(f) or "empty-composite",
                 "flexible": gen.is_flexible(jobs), "accepted": n_acc,
+                # user subclasses of the library observers (found by create_or_get_observer(Base) through isinstance)
+                "subclass": rng.random() < 0.3,
                 "filter_style": rng.choice(["callable", "enum", "str"])}
         return Scenario(lines, meta)
 
@@ -163,7 +167,7 @@ class Check(PropertyCheck):
         if cmd == "obs":
             kind = line.split()[1]
             cls = impl_ext.KINDS[kind]
-            existed = any(type(impl.heap[i]) is cls for i in before_ids)
+            existed = any(isinstance(impl.heap[i], cls) for i in before_ids)
             singleton = kind != "recorder"
             if singleton and existed and out != "raise":
                 res.append(("singleton", f"`{line}` succeeded although a {kind} observer is already subscribed"))
@@ -179,7 +183,7 @@ class Check(PropertyCheck):
         if cmd == "cog":
             kind = line.split()[1]
             cls = impl_ext.KINDS[kind]
-            first = next((i for i in before_ids if type(impl.heap[i]) is cls), None)
+            first = next((i for i in before_ids if isinstance(impl.heap[i], cls)), None)
             if first is not None and out != str(first):
                 res.append(("create-or-get", f"`{line}` returned {out}, but observer {first} of that class is subscribed"))
         # history observers that have been subscribed since their construction / last reset
